@@ -1,0 +1,22 @@
+//go:build verif
+
+package quickfix
+
+// Verification hooks for the codec family (tag=value codec, FieldMap, Message build/parse).
+// Compiled only with `-tags verif`; nothing here changes behaviour.
+
+// VerifMsgFields exposes Message.fields of a parsed message: per entry the tag, the value and the raw bytes.
+func VerifMsgFields(m *Message) (tags []int, values [][]byte, raws [][]byte) {
+	for _, tv := range m.fields {
+		tags = append(tags, int(tv.tag))
+		values = append(values, tv.value)
+		raws = append(raws, tv.bytes)
+	}
+	return
+}
+
+// VerifBodyBytes exposes Message.bodyBytes.
+func VerifBodyBytes(m *Message) []byte { return m.bodyBytes }
+
+// VerifBuildWithBodyBytes exposes Message.buildWithBodyBytes (the resend rebuild).
+func VerifBuildWithBodyBytes(m *Message, body []byte) []byte { return m.buildWithBodyBytes(body) }
